@@ -95,8 +95,13 @@ def run(case):
             if [float(x) for x in df2[df2.columns[0]]] != g2:
                 return "scenario with run specs (%r,%r,%r): time converter reports %r at labels %r" % (start2, g2[-1], dt2, [float(x) for x in df2[df2.columns[0]]][:8], g2[:8])
         b.begin_session(scenarios=["base"], scenario_managers=["sm"], equations=["s"], starttime=start, dt=dt)
-        for _ in range(n + 3):
-            b.run_step()
+        for k in range(n + 3):
+            res = b.run_step()
+            if k <= n:
+                # every step reports exactly one entry, labelled with its own grid value
+                tt = [float(x) for x in res["sm"]["base"]["s"].keys()]
+                if tt != [g[k]]:
+                    return "session step %d reports the times %r, expected [%r]" % (k, tt, g[k])
         keys = [float(k) for k in b.session_results().keys()]
         if keys != g:
             return "session labels %r, expected %r" % (keys[:12], g[:12])
@@ -114,9 +119,13 @@ def main():
     n = 0
     failures = []
     cases = [(0.0, 0.1, 12), (1.0, 0.1, 10), (0.0, 0.05, 9), (0.0, 0.2, 7), (0.0, 0.25, 6), (0.3, 0.1, 8), (2.0, 0.5, 5), (0.0, 1.0, 4),
-             (0.0, 0.3, 7), (1.5, 0.01, 12), (0.0, 0.125, 9), (10.0, 0.1, 11)]
+             (0.0, 0.3, 7), (1.5, 0.01, 12), (0.0, 0.125, 9), (10.0, 0.1, 11),
+             # grids that cross zero, whole-numbered dt on a fractional start, starts with three decimals
+             (-0.3, 0.1, 8), (-1.7, 1.0, 4), (-2.0, 0.5, 8), (-1.0, 0.25, 8), (-2.6, 1.0, 5), (0.001, 1.0, 4), (0.7, 2.0, 4), (-3.0, 1.0, 6)]
     label_cases = [(st, dt, k) for st in (0.0, 0.5, 1.0, 10.0, 100.0, 1000.0, 2.5) for dt in (0.1, 0.01, 0.001, 0.0001, 0.00001, 0.25, 0.125, 0.3, 0.7, 0.05, 0.2)
-                   for k in (1, 2, 3, 5, 8, 10, 16, 33, 100, 1000)] + [(0.0, 0.001, 16391), (0.0, 0.1, 20000)]
+                   for k in (1, 2, 3, 5, 8, 10, 16, 33, 100, 1000)] + [(0.0, 0.001, 16391), (0.0, 0.1, 20000)] + \
+                  [(st, dt, k) for st in (-1.7, -2.6, -0.3, -1.0, -0.5, -10.0, 0.001, 0.125, 0.7, 1.2, 0.1, 0.35)
+                   for dt in (1.0, 2.0, 5.0, 0.1, 0.25, 0.01, 0.2) for k in (1, 2, 3, 4, 5, 7, 12, 23, 100)]
     for lc in label_cases:
         n += 1
         try:
@@ -131,7 +140,7 @@ def main():
         if cases:
             case = cases.pop(0)
         else:
-            case = (rnd.choice([0.0, 1.0, 0.3, 2.5, 10.0]), rnd.choice([0.1, 0.2, 0.05, 0.25, 0.5, 0.3, 0.01, 0.125, 1.0, 0.7]), rnd.randint(1, 15))
+            case = (rnd.choice([0.0, 1.0, 0.3, 2.5, 10.0, -0.3, -1.7, -2.0, -0.5, 0.001]), rnd.choice([0.1, 0.2, 0.05, 0.25, 0.5, 0.3, 0.01, 0.125, 1.0, 0.7, 2.0]), rnd.randint(1, 15))
         n += 1
         try:
             bad = run(case)
